@@ -124,6 +124,19 @@ func runC17(c *engine.Ctx, tier string) {
 		widthRule(c, "C17.2/"+v.id, v.tree)
 		narrowing(c, "C17.3/"+v.id, v.vals)
 	}
+	o := c.Custom("C17.2c", "K-args", "every BuildTree call outside the tree packages renders with RFC 7951 on (second argument the constant true)",
+		"Get in JSON encoding, the OPA input and the document given to the model plugin all follow RFC 7951: 64-bit integers and decimals are strings; the non-RFC path goes through float64 and loses digits")
+	for _, cs := range c.P.CallSites() {
+		if !strings.HasSuffix(cs.Callee, "/tree.BuildTree") || strings.HasPrefix(cs.Pkg, "pkg/utils/") || strings.HasPrefix(cs.Pkg, "internal/") || len(cs.Call.Args) != 2 {
+			continue
+		}
+		o.Site(cs.Pos + " " + cs.Func)
+		o.Eval(1)
+		if tv, ok := cs.Info.Types[cs.Call.Args[1]]; !ok || tv.Value == nil || tv.Value.ExactString() != "true" {
+			o.Fail(&engine.Violation{Key: cs.Func + "|BuildTree without RFC 7951", Pos: cs.Pos, Func: cs.Func, Msg: "BuildTree is called with " + types.ExprString(cs.Call.Args[1]) + " instead of true: wide integers and decimals are rendered as (lossy) JSON numbers"})
+		}
+	}
+	o.Done(4)
 	sibling(c, "C17.4", pkgValuesV2, pkgValuesV3, [][2]string{{`\*configapi\.PathValue`, "configapi.PathValue"}, {`adminapi\.`, "configapi."}},
 		map[string]string{"NewChangeValue": "returns *PathValue in v2 and PathValue in v3: the two return statements differ by construction"})
 }
